@@ -40,12 +40,15 @@ pub fn vx_heap_push<I: VMsgIter>(h: &mut BinaryHeap<MinHeapEntry<I>>, e: MinHeap
     ensures heap_view(final(h)) == heap_view(old(h)).push(e),
 { unimplemented!() }
 // pop: a greatest element w.r.t. Ord (documented behaviour of a max-heap); which of several equal ones is unspecified
+// (vx_pop_idx: the position, in the ghost view, of the element that pop takes)
+pub uninterp spec fn vx_pop_idx<I: VMsgIter>(hv: Seq<MinHeapEntry<I>>) -> int;
 #[verifier::external_body]
-pub fn vx_heap_pop<I: VMsgIter>(h: &mut BinaryHeap<MinHeapEntry<I>>) -> (r: (Option<MinHeapEntry<I>>, Ghost<int>))
+pub fn vx_heap_pop<I: VMsgIter>(h: &mut BinaryHeap<MinHeapEntry<I>>) -> (r: Option<MinHeapEntry<I>>)
     ensures
-        r.0 is None ==> heap_view(old(h)).len() == 0 && heap_view(final(h)) == heap_view(old(h)),
-        r.0 is Some ==> 0 <= r.1@ < heap_view(old(h)).len() && heap_view(old(h))[r.1@] == r.0->Some_0 && heap_view(final(h)) == heap_view(old(h)).remove(r.1@),
-        r.0 is Some ==> forall|j: int| 0 <= j < heap_view(old(h)).len() ==> !(#[trigger] spec_entry_cmp(&heap_view(old(h))[j], &r.0->Some_0) is Greater),
+        r is None ==> heap_view(old(h)).len() == 0 && heap_view(final(h)) == heap_view(old(h)),
+        r is Some ==> 0 <= vx_pop_idx(heap_view(old(h))) < heap_view(old(h)).len() && heap_view(old(h))[vx_pop_idx(heap_view(old(h)))] == r->Some_0
+            && heap_view(final(h)) == heap_view(old(h)).remove(vx_pop_idx(heap_view(old(h)))),
+        r is Some ==> forall|j: int| 0 <= j < heap_view(old(h)).len() ==> !(#[trigger] spec_entry_cmp(&heap_view(old(h))[j], &r->Some_0) is Greater),
 { unimplemented!() }
 
 impl<I: VMsgIter> MinHeapEntry<I> {
@@ -99,7 +102,7 @@ impl<I: VMsgIter> SortingMultiReaderIterator<I> {
 
 //@ extract src/utils/sorting_multi_readeriterator.rs <Iterator for SortingMultiReaderIterator>::next
 //@   sub R8 `Self::Item` => `DltMessage`
-//@   sub R11 `let heap_entry = self.min_heap.pop();` => `let (heap_entry, Ghost(pi)) = vx_heap_pop(&mut self.min_heap);`
+//@   sub R11 `self.min_heap.pop()` => `vx_heap_pop(&mut self.min_heap)`
 //@   sub R11 `self.min_heap.push(MinHeapEntry { m, it })` => `vx_heap_push(&mut self.min_heap, MinHeapEntry { m, it })`
 //@   spec
 //@|    requires old(self).index < u32::MAX,
@@ -119,6 +122,7 @@ impl<I: VMsgIter> SortingMultiReaderIterator<I> {
 //@|    let ghost e0 = heap_entry;
 //@|    let ghost hv0 = heap_view(&old(self).min_heap);
 //@|    let ghost p0 = old(self).pend();
+//@|    let ghost pi = vx_pop_idx(hv0);
 //@   hint before `^Some(m)`
 //@|    proof {
 //@|        let hv1 = heap_view(&self.min_heap);
@@ -136,8 +140,6 @@ impl<I: VMsgIter> SortingMultiReaderIterator<I> {
 //@|            assert(self.pend() =~= p0.remove(pi).push(p0[pi].skip(1)));
 //@|        }
 //@|    }
-//@   hint before `^None`
-//@|    assert(self.pend() =~= old(self).pend());
 //@ end
 }
 
